@@ -21,8 +21,14 @@ def sched_histories(rp, seed, tier):
         if probs:
             viol.append(dict(id='directed:' + name, detail='; '.join(probs[:3]), input=dict(history=hist)))
     n_hist = 150 if tier == 'quick' else 1500
+    import re
+    def kinds(probs):
+        # the kinds of problem a history shows, without task names and numbers: a recorded
+        # finding names a kind, so that a history failing in another way is still reported
+        ks = sorted(set(re.sub(r'[^a-z]+', '-', re.sub(r"\bt\d+\b|\[[^\]]*\]|\d+", '', p.lower())).strip('-')[:60] for p in probs))
+        return '+'.join(ks)
     for probs, hist, k in sched_sim.random_histories(rp, n_hist=n_hist, seed=20240917 + seed):
-        viol.append(dict(id='random-%04d' % k, detail='; '.join(probs[:3]), input=dict(history=hist)))
+        viol.append(dict(id='random-%04d:%s' % (k, kinds(probs)), detail='; '.join(probs[:3]), input=dict(history=hist)))
         if len(viol) > 5: break
     return dict(cases=n + n_hist, violations=viol,
                 bound='%d directed scenarios + %d random histories (<= 14 operations, <= 2 nodes x 4 cores, 1 GPU per node, '
